@@ -2,7 +2,8 @@
    combinations model and the independent-set model; truth-table / product
    decisions evaluated on the energies the implementation reported. *)
 From Coq Require Import List ZArith QArith Qcanon Bool Arith.
-From Dimod Require Import Base.Util Model.Poly Model.Comb Gen.Gen_Gates Gen.Gen_Combinations Gen.Gen_Graph Model.Gates Model.Knap Model.QKnap Gen.Gen_Knap Model.MultCircuit Model.Qap Model.Magic Model.Sat Gen.Gen_Sat.
+From Dimod Require Import Base.Util Model.Poly Model.Comb Gen.Gen_Gates Gen.Gen_Combinations Gen.Gen_Graph Model.Gates Model.Knap Model.QKnap Gen.Gen_Knap Model.MultCircuit Model.Qap Gen.Gen_Qap Model.QapGen Model.Magic Gen.Gen_Magic Model.MagicGen Model.Sat Gen.Gen_Sat.
+From Dimod Require Model.RandStruct.
 Import ListNotations.
 Open Scope Qc_scope.
 
@@ -51,7 +52,9 @@ Inductive case :=
 | CMagic (n power : nat) (cons : list (obs * sense * Qc)) (rows : list (list Z * bool))
 (* random_kmcsat / nae3sat / 2in4sat: the clauses drawn (replayed from the seed), the BQM, energies of all spin assignments *)
 (* wrapper: 0 = random_kmcsat, 1 = random_nae3sat, 2 = random_2in4sat (their k is the TRANSLATED one) *)
-| CSat (wrapper : nat) (k : nat) (planted : bool) (n : nat) (clauses : list clause) (bqm : obs) (rows : list (list bool * Qc)).
+| CSat (wrapper : nat) (k : nat) (planted : bool) (n : nat) (clauses : list clause) (bqm : obs) (rows : list (list bool * Qc))
+(* chimera_anticluster(m, n, t, multiplier) without subgraph: the interactions the implementation built (integer labels) *)
+| CChimera (m n t : nat) (mult : Qc) (quad : list qterm).
 
 Definition bits_eqb := list_eqb Bool.eqb.
 Definition rows_complete (n : nat) (rows : list (list bool * Qc)) : bool :=
@@ -167,8 +170,13 @@ Definition check (c : case) : bool :=
   | CQap n F D obj cs rows =>
       let m := qap_model n F D in
       check_lcqm m (n * n) obj cs rows (qap_ok n) (energy (q_obj m))
+      (* the construction GENERATED from the source (Gen_Qap.v), replayed with set_quadratic (Model/QapGen.v) *)
+      && poly_coeff_eqb (n * n) (qapg_objective n F D) (obs_poly obj)
+      && forallb2 (con_matches (n * n)) (qapg_constraints n) cs
   | CMagic n power cs rows =>
       forallb2 (qcon_matches (n * n + 1)) (magic_constraints n power) cs
+      (* the construction GENERATED from the source (Gen_Magic.v, Model/MagicGen.v) *)
+      && forallb2 (qcon_matches (n * n + 1)) (magicg_constraints n power) cs
       && forallb (fun r => Bool.eqb (snd r) (magic_feasibleb n power (zsample (fst r)))) rows
   | CSat wrapper k planted n clauses bqm rows =>
       match wrapper with 1%nat => (k =? sat_nae3_k)%nat | 2%nat => (k =? sat_2in4_k)%nat | _ => true end
@@ -180,4 +188,15 @@ Definition check (c : case) : bool :=
       (* a planted instance has the all +1 assignment among its ground states *)
       && (negb planted ||
           let e1 := lookup_row rows (repeat true n) in forallb (fun r => qle e1 (snd r)) rows)
+  | CChimera m n t mult quad =>
+      (* per-case tie of Model/RandStruct.v: tile_edges / intertile_edges (mirrors of _iter_chimera_tile_edges /
+         _iter_chimera_intertile_edges) are exactly the interactions, intra-tile +-1, inter-tile +-multiplier *)
+      let inner := RandStruct.tile_edges m n t in
+      let outer := RandStruct.intertile_edges m n t in
+      let mem := fun (l : list (nat * nat)) (u v : nat) => existsb (fun e => same_pair u v (fst e) (snd e)) l in
+      (length quad =? length inner + length outer)%nat
+      && forallb (fun q : qterm => let '(u, v, x) := q in
+                    if mem inner u v then Qc_eqb x 1 || Qc_eqb x (- (1))
+                    else mem outer u v && (Qc_eqb x mult || Qc_eqb x (- mult))) quad
+      && forallb (fun e => has_pair quad (fst e) (snd e)) (inner ++ outer)
   end.
